@@ -54,6 +54,9 @@ type vPairAPIOpts struct {
 	Media        func(m *MediaEngine) error // nil: RegisterDefaultCodecs
 	Setting      func(s *SettingEngine)     // applied after the loopback settings
 	Interceptors bool                       // true: RegisterDefaultInterceptors (NACK/RTX responder, reports, TWCC)
+	// Registry, when set, adds the check's own interceptors BEFORE the default ones: on the
+	// receive path they sit between SRTP and the default interceptors (e.g. the NACK generator).
+	Registry func(r *interceptor.Registry)
 }
 
 // vPairNewAPI builds an API whose ICE agent gathers host candidates on the loopback interface only.
@@ -80,6 +83,9 @@ func vPairNewAPI(tb testing.TB, o vPairAPIOpts) *API {
 		o.Setting(&s)
 	}
 	reg := &interceptor.Registry{}
+	if o.Registry != nil {
+		o.Registry(reg)
+	}
 	if o.Interceptors {
 		if err := RegisterDefaultInterceptorsWithOptions(m, reg, WithInterceptorLoggerFactory(lf)); err != nil {
 			vPairFatalf("RegisterDefaultInterceptors: %v", err)
